@@ -283,7 +283,11 @@ def ddmin(lines, fails, budget=150):
 def write_evidence(prop, tier, seed, coverage, assumptions, wall, violations, level='proof'):
     ev = {'property_id': prop, 'tier': tier, 'seed': int(seed), 'level': level, 'coverage': coverage,
           'assumptions': assumptions, 'wall_s': round(wall, 2), 'violations': int(violations)}
-    p = os.path.join(EVIDENCE, prop + '.json')
+    # evidence/ describes runs against /repo itself; a run against another tree (CELLO_REPO=…, used by tools/seed_eval.py
+    # and the engines' mutation self-tests) must not overwrite it
+    edir = EVIDENCE if os.path.realpath(REPO) == '/repo' else os.path.join(CACHE, 'evidence_other_tree')
+    os.makedirs(edir, exist_ok=True)
+    p = os.path.join(edir, prop + '.json')
     tmp = p + f'.{os.getpid()}.tmp'
     with open(tmp, 'w') as f: json.dump(ev, f, indent=1)
     os.replace(tmp, p)
